@@ -28,6 +28,8 @@ REGISTRY = {
     "C15": ("nixmc.props.c15", {}),
     "C16": ("nixmc.props.c16", {}),
     "C17": ("nixmc.props.c17", {}),
+    "C07": ("nixmc.props.textspace", {}),
+    "C20": ("nixmc.props.c20", {}),
 }
 
 
